@@ -238,3 +238,64 @@ Lemma static_modifiers_looked_up : forall f modifiers name d,
   static_names_of (AWithValue f LinkLibrary (VKind (bs "static:" ++ modifiers) name) d) = [name] /\
   static_names_of (AWithValue f LinkLibrary (VKind (bs "static") name) d) = [name].
 Proof. intros. split; reflexivity. Qed.
+
+(* ------------------------------------------------------------------ the compile command's colour option *)
+
+Lemma handle_json cwd s arg s' :
+  handle cwd s arg = SCont s' -> ps_has_json s' = ps_has_json s || is_json arg.
+Proof.
+  unfold handle, is_json. intro H.
+  destruct arg as [r|u|f a|f a v d]; [| |destruct a|destruct a; destruct v as [raw|rl st oth|k n|o val|n p|ip t]];
+    cbv beta iota in H; split_matches H; try discriminate; inversion H; cbn [ps_has_json];
+    rewrite ?orb_false_r, ?orb_true_r; reflexivity.
+Qed.
+
+Lemma normalize_json_color a : is_json (normalize a) = is_json a /\ is_color (normalize a) = is_color a.
+Proof. destruct a as [r|u|f a|f a v d]; try (split; reflexivity). destruct d; split; reflexivity. Qed.
+
+Lemma color_not_json a : is_color a = true -> is_json a = false.
+Proof. destruct a as [r|u|f a|f a v d]; simpl; try discriminate; destruct a; try discriminate; reflexivity. Qed.
+
+Definition colour_state_ok (s : pstate) : Prop :=
+  forallb (fun a => negb (is_color a)) (ps_args s) = true /\ ps_has_json s = existsb is_json (ps_args s).
+
+Lemma parse_loop_colour_state fuel : forall cwd s argv s',
+  colour_state_ok s -> parse_loop fuel cwd s argv = SCont s' -> colour_state_ok s'.
+Proof.
+  induction fuel as [|fuel IH]; intros cwd s argv s' Hs H; simpl in H.
+  - inversion H. subst. exact Hs.
+  - destruct (next_arg argv) as [[r rest]|]; [|inversion H; subst; exact Hs].
+    destruct r as [arg| |]; try discriminate.
+    destruct (handle cwd s arg) as [s1|] eqn:Eh; [|discriminate].
+    pose proof (handle_keeps_args _ _ _ _ Eh) as Ek. pose proof (handle_json _ _ _ _ Eh) as Ej.
+    destruct Hs as [Hc Hj]. apply IH in H; [exact H|].
+    unfold colour_state_ok. destruct (is_color arg) eqn:Ec.
+    + rewrite Ek, Ej, (color_not_json arg Ec), orb_false_r. split; assumption.
+    + unfold with_args. cbn [ps_args ps_has_json]. destruct (normalize_json_color arg) as [N1 N2].
+      rewrite forallb_app, existsb_app, Ek, Hc. cbn [forallb existsb]. rewrite N1, N2, Ec, Ej, Hj, orb_false_r.
+      split; reflexivity.
+Qed.
+
+(* the compile command of an accepted request: its own arguments without any `--color` among them, then a colour
+   option that depends on nothing but whether `--json` was given *)
+Theorem compile_command_colour : forall ex argv cwd p,
+  parse_arguments ex argv cwd = PROk p ->
+  forallb (fun a => negb (is_color a)) (p_args p) = true /\
+  p_arguments p = map arg_pair (p_args p) /\
+  compile_args p = flat_map iter_os_strings (p_args p) ++ colour_suffix (existsb is_json (p_args p)).
+Proof.
+  intros ex argv cwd p H. unfold parse_arguments in H.
+  destruct (parse_loop (S (length argv)) cwd ps_init argv) as [s|r] eqn:El;
+    [|exfalso; eapply parse_loop_stop_not_ok; [exact El|exact H]].
+  assert (L : colour_state_ok s).
+  { eapply parse_loop_colour_state; [|exact El]. split; reflexivity. }
+  destruct L as [Lc Lj].
+  unfold finish in H.
+  destruct (ps_input s); [|discriminate]. destruct (ps_output_dir s); [|discriminate].
+  destruct (ps_emit s) as [emit|]; [|discriminate]. destruct (ps_crate_name s); [|discriminate].
+  destruct (negb match emit with [] => true | _ :: _ => false end && negb (set_mem (bs "link") emit)
+            && negb (set_mem (bs "metadata") emit)); [discriminate|].
+  destruct (negb (ps_rlib s) && negb (ps_staticlib s)); [discriminate|].
+  destruct (existsb (fun e => negb (set_mem e ALLOWED_EMIT)) emit); [discriminate|].
+  inversion H. unfold compile_args. cbn [p_args p_arguments p_has_json]. rewrite Lj. repeat split. exact Lc.
+Qed.
